@@ -73,6 +73,15 @@ func Run(o *hx.Opts, w *lineio.Writer) error {
 		}
 	}
 	cases = append(cases, systematic(o.Seed)...)
+	cases = append(cases, optionCases()...)
+	ro := o.Rand(1300013)
+	for i := 0; i < o.N(2500, 20000); i++ {
+		in := In{Kind: "opts", Spec: genSpec(ro), Ext: defaultExt(), Runs: 10,
+			Adjust: genAdj(ro, adjOpts{pFamily: 0.45, zeroLimit: true, setRemove: true})}
+		genCallbacks(ro, &in.Ext)
+		cases = append(cases, namedIn{fmt.Sprintf("opts-%d", i), in})
+		flush(false)
+	}
 	r := o.Rand(13)
 	n := o.N(12000, 100000)
 	for i := 0; i < n; i++ {
